@@ -245,11 +245,29 @@ Definition C19_holds_on (cs : c19case) (obs : list string) : bool :=
     end
   else true.
 
+(* RAW cases: a hand-made Kafka message value goes to the consumer side only (ties the decoder
+   model to proto.Unmarshal beyond canonical encodings; correspondence only, outside the property) *)
+Definition c19_raw (case : list string) : option string :=
+  match case with
+  | cv :: topic :: marker :: "RAW" :: k :: chunks =>
+      match (if String.eqb cv "1" then Some conv1 else if String.eqb cv "2" then Some conv2 else None),
+            parse_nat k with
+      | Some c, Some k' =>
+          match take_chunks k' chunks with
+          | Some (v, []) => Some ("raw " ++ consumer c v ++ " | T F")
+          | _ => Some "PARSE-ERROR"
+          end
+      | _, _ => Some "PARSE-ERROR"
+      end
+  | _ => None
+  end.
+
 Definition c19_run (case obs : list string) : string :=
+  match c19_raw case with Some s => s | None =>
   match c19_parse case with
   | Some cs =>
       if Bool.eqb (cs_marker cs) (utf8_case cs) then
         c19_model cs ++ " | " ++ show_bool (C19_holds_on cs obs) ++ " " ++ show_bool (wf_case cs)
       else "MARKER-MISMATCH"
   | None => "PARSE-ERROR"
-  end.
+  end end.
